@@ -34,6 +34,24 @@
 (*                         certificates of the certificate-mandatory blocks, identity version N     *)
 (*   NoPartialSwitch       head / state change only in the atomic switch (and then to exactly N)    *)
 (*   Recoverable           from every reachable state an honest peer completes the sync             *)
+(*                                                                                                *)
+(* Deliberate deviations / what the model says because the CODE does it (all confirmed on traces): *)
+(*  * A block is applied only when a later (or its own) certificate arrives; header checks run at    *)
+(*    receive time, the identity-root check at application time, so the peer blamed for a bad diff   *)
+(*    may be the peer of an EARLIER batch (blockPeer.peerId), the reload then ignores the CURRENT one. *)
+(*  * A self-consistent forged header without certificate (hdr-forged) is not detected where it is   *)
+(*    served: it waits in deferredHeaders and makes the NEXT block fail its parent-hash check; the     *)
+(*    peer of that next batch - possibly an honest one - lands in potentialForkedPeers and the forger  *)
+(*    is not banned.  The forged block is never applied (NoFaultAccepted holds); the blame is wrong.   *)
+(*    HeaderVerdict models this ("forked" when the previous deferred header is forged).              *)
+(*  * A truncated answer (nil block) bans the peer and fails the batch without reload.               *)
+(*  * Withholding a non-mandatory certificate is harmless (Harmless): it only delays application.    *)
+(*  * The manifest's Root field is ignored by the code (the preliminary head's root is used).        *)
+(* Not modelled: upgrade / NewGenesis blocks, silent peers (20 s time-outs), crashes between the      *)
+(* writes of one step (C09), the 10-attempt limit is modelled but not reached by the bounds.         *)
+(* Known limit of the protocol, not judged: an identity diff is bound to the header only through the  *)
+(* resulting root, so entries that do not change the tree (deletion of an absent key) pass; honest    *)
+(* diffs contain such entries too (an object created and emptied in one block).                      *)
 EXTENDS Integers, Sequences, FiniteSets, TLC
 
 CONSTANTS MaxAttempts      \* MaxAttemptsCountPerBatch
